@@ -473,6 +473,10 @@ def g_value(c, depth=2):
     if k in (4, 5):
         return r.choice(c.strings())
     if k == 6:
+        if r.random() < 0.12:
+            # adjacent integers beyond 2^53 (distinct values that round to the same double): enum/const/uniqueItems compare exactly
+            b = r.choice([2 ** 53, 2 ** 60, 2 ** 63 - 2, 2 ** 63, 2 ** 64 - 2, -2 ** 53 - 1, -2 ** 63])
+            return b + r.randrange(0, 2)
         return r.choice([0, 1, True, False, "1", "0", [], {}])
     if k == 7:
         return r.choice([[1], [True], [0], [False], {"a": 1}, {"a": True}, {"a": [1]}, [[1]], ["a"], {"a": None}, {"a": 1, "b": 2}])
@@ -1139,6 +1143,8 @@ def look_alike(c, v):
     if isinstance(v, bool):
         return int(v) if r.random() < 0.7 else str(v).lower()
     if isinstance(v, int):
+        if abs(v) > 2 ** 52:
+            return r.choice([x for x in (v + 1, v - 1, v + 1, v - 1, str(v), [v]) if not isinstance(x, int) or -2 ** 63 <= x <= 2 ** 64 - 1])   # integers only (no float neighbour up there)
         opts = [bool(v) if v in (0, 1) else v + 1, str(v), [v], v + 1, v - 1, v + 0.5]
         if c.intfloat:
             opts.append(float(v))
